@@ -120,7 +120,7 @@ struct PkgEngine : Engine {
 			std::string doc;
 			if (w.chance(2, 3)) {
 				doc += "Title: T " + std::string(w.chance(1, 2) ? "& <b> \"q\"" : "plain") + "\n";
-				if (w.chance(1, 2)) doc += "Author: A. U. Thor\n";
+				if (w.chance(1, 2)) doc += w.chance(1, 3) ? "Author: A & B <c@d.ee> \"q\" 'r'\n" : "Author: A. U. Thor\n";
 				if (w.chance(1, 3)) doc += "CSS: style.css\n";
 				if (w.chance(1, 4)) doc += "Date: 2020-02-02\n";
 				if (w.chance(1, 4)) doc += "uuid: 11111111-2222-4333-8444-555555555555\n";
@@ -128,6 +128,14 @@ struct PkgEngine : Engine {
 				o.meta = false;
 			}
 			std::string body = gen_doc(w, o);
+			if (w.chance(1, 8)) {
+				// many headings, irregular nesting, markup / a link / reserved characters inside headings: the navigation document's material
+				int nh = (int)w.range(8, 40);
+				for (int h = 0; h < nh; h++) {
+					static const char * ht[] = {"plain", "*em* & <x>", "[a link](http://example.com/?a=1&b=2)", "\"quoted\" 'single'", "`code` ~sub~", "caf\xc3\xa9 \xe6\x97\xa5"};
+					body += std::string(1 + w.below(6), '#') + " H" + std::to_string(h) + " " + ht[w.below(6)] + "\n\ntext " + std::to_string(h) + "\n\n";
+				}
+			}
 			if (o.toc && w.chance(1, 2)) body = "{{TOC}}\n\n" + body;
 			if (!o.image_urls.empty() && w.chance(1, 4)) body = "![cover](" + o.image_urls[w.below(o.image_urls.size())] + ")\n\n" + body;      // a cover image before the first heading
 			// raw filters and header-level metadata legitimately differ between EPUB and HTML
